@@ -257,11 +257,17 @@ def cargo_build(pkg, bins=None, timeout=3600, features=None):
     e["CARGO_NET_OFFLINE"] = "true"
     e.setdefault("CARGO_BUILD_JOBS", "12")
     t0 = time.time()
-    p = subprocess.run(cmd, cwd=HARNESS, env=e, stdout=subprocess.PIPE, stderr=subprocess.STDOUT, text=True,
-                       timeout=timeout)
-    if p.returncode != 0:
-        raise ToolError("harness build failed (%s):\n%s" % (" ".join(cmd), p.stdout[-6000:]))
-    return time.time() - t0
+    for attempt in range(4):
+        p = subprocess.run(cmd, cwd=HARNESS, env=e, stdout=subprocess.PIPE, stderr=subprocess.STDOUT, text=True,
+                           timeout=timeout)
+        if p.returncode == 0:
+            return time.time() - t0
+        # while several builders share /repo one of them may have a mutation applied for a few seconds:
+        # retry when the working tree changed under us (VERIF_BUILD_RETRY=1 is set by the builders only)
+        if os.environ.get("VERIF_BUILD_RETRY") != "1":
+            break
+        time.sleep(25)
+    raise ToolError("harness build failed (%s):\n%s" % (" ".join(cmd), p.stdout[-6000:]))
 
 
 def bin_path(name):
